@@ -5,6 +5,7 @@ package main
 import (
 	"verifharness/internal/hk"
 	_ "verifharness/props/c19"
+	_ "verifharness/props/c20"
 )
 
 func main() { hk.Main() }
